@@ -194,7 +194,8 @@ partial def seqSteps (ω : Oracle) (n : Nat) (idx : Nat) (model impl : Pool) (v 
       if status == "ok" then
         let nr ← pInt
         let nc ← pInt
-        good := nc == (f.ncols : Int) && (f == [] || nr == (f.nrows : Int))
+        -- "Nrows/Ncols agree with the content": every column has Nrows cells (no row count agrees with a ragged frame)
+        good := nc == (f.ncols : Int) && (f == [] || (nr == (f.nrows : Int) && f.rect?))
       else good := false
     let dump ← pDump impl
     let mut v := v
